@@ -370,7 +370,7 @@ Definition tmem (s : list (key * Z)) (c : C) : bool :=
   existsb (fun kv : key * Z => match fst kv with KT l => cmem c l | K _ => false end) s.
 
 Definition hq (votes : list (C * Q)) (n : Z) : Q := hare (qsumv votes) n.
-Definition hsel (votes : list (C * Q)) (n : Z) : list (C * Z) := flat_map (isel true (hq votes n) n [] []) votes.
+Definition hsel (votes : list (C * Q)) (n : Z) : list (C * Z) := flat_map (isel true (hq votes n) [] []) votes.
 Definition hR (votes : list (C * Q)) (n : Z) : Z := n - fsum (hq votes n) votes.
 Definition hbest (votes : list (C * Q)) (n : Z) : list (res C) :=
   get_n_best Qle_bool (map (remf (hq votes n)) votes) (Z.to_nat (hR votes n)).
@@ -483,14 +483,13 @@ Section Run.
   Proof. rewrite Zle_Qle. rewrite <- total_over_q. apply fsum_le, q_pos. Qed.
 
   Lemma scan_item_hare c v : In (c, v) votes ->
-    scan_item true q n [] [] (c, v) = if 0 <? fl q v then Some (fl q v, None) else None.
+    scan_item true q [] [] (c, v) = if 0 <? fl q v then Some (fl q v) else None.
   Proof.
     intros Hin. pose proof q_pos as Hq. pose proof (Hpos c v Hin) as Hv.
     pose proof (div_nonneg v q Hq Hv) as Hd.
-    unfold scan_item. cbn [fst snd]. unfold dget_or. cbn [dget]. rewrite (py_trunc_floor _ Hd), Z.sub_0_r, Z.add_0_r.
+    unfold scan_item, cap_whole. cbn [fst snd]. unfold dget_or. cbn [dget]. rewrite (py_trunc_floor _ Hd), Z.sub_0_r.
     fold (fl q v). destruct (fulfills true v q) eqn:Ef.
-    - destruct (0 <? fl q v); [|reflexivity].
-      assert (n <? fl q v = false) as -> by (apply Z.ltb_ge, (fl_le_n c v Hin)). reflexivity.
+    - destruct (0 <? fl q v); reflexivity.
     - assert (Hz : fl q v = 0).
       { unfold fulfills in Ef. apply orb_false_iff in Ef. destruct Ef as [E1 E2]. cbn [andb] in E2.
         apply negb_false_iff, Qle_bool_iff in E1.
@@ -502,20 +501,12 @@ Section Run.
   Qed.
 
   Lemma isel_hare c v : In (c, v) votes ->
-    isel true q n [] [] (c, v) = if 0 <? fl q v then [(c, fl q v)] else [].
+    isel true q [] [] (c, v) = if 0 <? fl q v then [(c, fl q v)] else [].
   Proof. intros Hin. unfold isel. rewrite (scan_item_hare c v Hin). destruct (0 <? fl q v); reflexivity. Qed.
 
-  Lemma scan_hare : scan true votes q n [] [] ([], 0, []) = (hsel votes n, 0, []).
+  Lemma scan_hare : scan true votes q [] [] [] = hsel votes n.
   Proof.
-    rewrite scan_char; [|exact Hnd|intros c _ []]. cbn [app]. fold q. unfold hsel. fold q. f_equal; [f_equal|].
-    - assert (H : forall l, (forall c v, In (c, v) l -> In (c, v) votes) -> lsumZ (map (inov true q n [] []) l) = 0).
-      { induction l as [|[c v] t IH]; intros Hl; simpl; [reflexivity|]. rewrite IH by (intros c' v' Hi; apply Hl; right; exact Hi).
-        unfold inov. rewrite (scan_item_hare c v) by (apply Hl; left; reflexivity). destruct (0 <? fl q v); reflexivity. }
-      rewrite H; [reflexivity|]. intros c v Hi. exact Hi.
-    - assert (H : forall l, (forall c v, In (c, v) l -> In (c, v) votes) -> flat_map (iovc true q n [] []) l = []).
-      { induction l as [|[c v] t IH]; intros Hl; simpl; [reflexivity|]. rewrite IH by (intros c' v' Hi; apply Hl; right; exact Hi).
-        unfold iovc. rewrite (scan_item_hare c v) by (apply Hl; left; reflexivity). destruct (0 <? fl q v); reflexivity. }
-      apply H. intros c v Hi. exact Hi.
+    rewrite scan_char; [|exact Hnd|intros c _ []]. cbn [app]. fold q. unfold hsel. fold q. reflexivity.
   Qed.
 
   Lemma hsel_nodup : keysnd (hsel votes n).
@@ -525,16 +516,16 @@ Section Run.
   Proof.
     unfold hsel. fold q.
     assert (H : forall l, NoDup (map fst l) -> (forall c v, In (c, v) l -> In (c, v) votes) ->
-      (forall c v, In (c, v) l -> dget_or (flat_map (isel true q n [] []) l) c 0 = fl q v) /\
-      (forall c, ~ In c (map fst l) -> dget_or (flat_map (isel true q n [] []) l) c 0 = 0)).
+      (forall c v, In (c, v) l -> dget_or (flat_map (isel true q [] []) l) c 0 = fl q v) /\
+      (forall c, ~ In c (map fst l) -> dget_or (flat_map (isel true q [] []) l) c 0 = 0)).
     { induction l as [|[c0 v0] t IH]; intros Hndl Hl.
       - split; [intros ? ? []|reflexivity].
       - inversion Hndl as [|? ? Hc0 Hndt]; subst.
         destruct (IH Hndt) as [IH1 IH2]; [intros c' v' Hi; apply Hl; right; exact Hi|].
         cbn [flat_map]. rewrite (isel_hare c0 v0) by (apply Hl; left; reflexivity).
-        assert (Hhead : forall c, dget_or ((if 0 <? fl q v0 then [(c0, fl q v0)] else []) ++ flat_map (isel true q n [] []) t) c 0
-                    = if ceqb c c0 then (if 0 <? fl q v0 then fl q v0 else dget_or (flat_map (isel true q n [] []) t) c 0)
-                      else dget_or (flat_map (isel true q n [] []) t) c 0).
+        assert (Hhead : forall c, dget_or ((if 0 <? fl q v0 then [(c0, fl q v0)] else []) ++ flat_map (isel true q [] []) t) c 0
+                    = if ceqb c c0 then (if 0 <? fl q v0 then fl q v0 else dget_or (flat_map (isel true q [] []) t) c 0)
+                      else dget_or (flat_map (isel true q [] []) t) c 0).
         { intros c1. destruct (0 <? fl q v0); cbn [app]; [|destruct (ceqb c1 c0); reflexivity].
           unfold dget_or. cbn [dget]. destruct (ceqb c1 c0); reflexivity. }
         split.
@@ -553,7 +544,7 @@ Section Run.
   Proof.
     unfold zsumv. rewrite fold_add_acc, Z.add_0_l. unfold hsel, fsum. fold q.
     assert (H : forall l, (forall c v, In (c, v) l -> In (c, v) votes) ->
-      lsumZ (map snd (flat_map (isel true q n [] []) l)) = lsumZ (map (fun cv => fl q (snd cv)) l)).
+      lsumZ (map snd (flat_map (isel true q [] []) l)) = lsumZ (map (fun cv => fl q (snd cv)) l)).
     { induction l as [|[c v] t IH]; intros Hl; [reflexivity|].
       cbn [flat_map map]. rewrite map_app, lsumZ_app, IH by (intros c' v' Hi; apply Hl; right; exact Hi).
       rewrite (isel_hare c v) by (apply Hl; left; reflexivity). cbn [lsumZ fold_right snd]. 
@@ -564,11 +555,11 @@ Section Run.
 
   Lemma qd_hare : qd_evaluate hare true pol votes n [] [] = QD_ok (plain (hsel votes n)).
   Proof.
-    unfold qd_evaluate. rewrite qd_eval_S. cbv zeta. fold (hq votes n). fold q.
+    unfold qd_evaluate. cbv zeta. fold (hq votes n). fold q.
     assert (Qeq_bool q 0 = false) as ->.
     { apply not_true_iff_false. intros H. apply Qeq_bool_iff in H. pose proof q_pos. lra. }
-    cbn [andb]. rewrite scan_hare. cbn [Z.eqb]. unfold qd_tail. cbn [has_tie existsb plain_of flat_map].
-    unfold add_dict. cbn [fold_left]. rewrite zsumv_hsel. change (zsumv []) with 0. rewrite Z.add_0_r.
+    cbn [andb]. rewrite scan_hare.
+    rewrite zsumv_hsel. change (zsumv []) with 0. rewrite Z.add_0_r.
     assert (n <? fsum q votes = false) as -> by (apply Z.ltb_ge, fsum_le_n). reflexivity.
   Qed.
 
